@@ -1050,3 +1050,19 @@ V("C19", "sort-output-file-option-dropped", "fire", "C19.R1", "`pyhf sort` loses
 V("C19", "digest-gains-output-file-option", "silent", "", "`pyhf digest` gains an optional --output-file (default: print, as today)",
   ("src/pyhf/cli/spec.py", "    help='Output the hash values as a JSON dictionary or plaintext strings',\n)\ndef digest(workspace, algorithm, output_json):", "    help='Output the hash values as a JSON dictionary or plaintext strings',\n)\n@click.option('--output-file', default=None, help='Write the digests to this file instead of the screen.')\ndef digest(workspace, algorithm, output_json, output_file):"),
   ("src/pyhf/cli/spec.py", "    click.echo(output)\n\n\n@cli.command()\n@click.argument('workspace', default='-')\n@click.option(\n    '--output-file',\n    help='The location of the output json file. If not specified, prints to screen.',\n    default=None,\n)\ndef sort(", "    if output_file is None:\n        click.echo(output)\n    else:\n        with open(output_file, 'w+', encoding='utf-8') as out_file:\n            out_file.write(output)\n\n\n@cli.command()\n@click.argument('workspace', default='-')\n@click.option(\n    '--output-file',\n    help='The location of the output json file. If not specified, prints to screen.',\n    default=None,\n)\ndef sort("))
+
+# ------------------------------------------------------------------ round 7 additions
+SMO = "src/pyhf/simplemodels.py"
+V("C08", "factory-poi-default-forced", "fire", "C08.R7", "a model factory replaces a falsy poi_name (the POI-less request) by its default",
+  (SMO, "    return Model(spec, batch_size=batch_size, validate=validate, poi_name=poi_name)\n\n\ndef uncorrelated_background(", "    return Model(spec, batch_size=batch_size, validate=validate, poi_name=poi_name or 'mu')\n\n\ndef uncorrelated_background("))
+V("C08", "factory-keyword-order", "silent", "", "a model factory passes the same keywords in another order",
+  (SMO, "    return Model(spec, batch_size=batch_size, validate=validate, poi_name=poi_name)\n\n\ndef uncorrelated_background(", "    return Model(spec, poi_name=poi_name, validate=validate, batch_size=batch_size)\n\n\ndef uncorrelated_background("))
+V("C18", "rootname-unanchored", "fire", "C18.R3", "the alpha_ prefix is cut at its LAST occurrence (a name containing alpha_ is truncated)",
+  ("src/pyhf/compat.py", "match = re.search(r'^alpha_(.+)$', rootname)", "match = re.search(r'^.*alpha_(.+)$', rootname)"))
+WSP = "src/pyhf/workspace.py"
+V("C20", "model-channels-by-name", "fire", "C20.R8", "Workspace.model hands Model one entry per channel NAME (a duplicate is dropped before the model can refuse it)",
+  (WSP, "            'channels': self['channels'],\n            'parameters': measurement['config']['parameters'],", "            'channels': list({ch_['name']: ch_ for ch_ in self['channels']}.values()),\n            'parameters': measurement['config']['parameters'],"))
+V("C12", "build-drops-factors", "fire", "C12.R9", "Workspace.build no longer writes the factors of a Poisson-constrained parameter",
+  (WSP, "for key in ('auxdata', 'sigmas', 'factors')", "for key in ('auxdata', 'sigmas')"))
+V("C01", "normsys-second-channel-rebroadcast", "fire", "C01.R11", "normsys builder repeats the first channel's factors for a sample that carries the modifier in a second channel",
+  ("src/pyhf/modifiers/normsys.py", "        self.builder_data[key][sample]['data']['hi'] += moddata['hi']", "        self.builder_data[key][sample]['data']['hi'] += (self.builder_data[key][sample]['data']['hi'][:1] * len(nom) if thismod and any(self.builder_data[key][sample]['data']['mask'][: -len(nom)]) else moddata['hi'])"))
